@@ -119,9 +119,9 @@ ObsNow ==
      held     |-> held,
      muxers   |-> {[p |-> p, id |-> smap[p], auto |-> mux[smap[p]].auto, inst |-> mux[smap[p]].inst # 0] : p \in Shown},
      sessions |-> UNION {{[s |-> s, p |-> p] : s \in mux[smap[p]].sess} : p \in Shown},
-     readers  |-> {[kind |-> "m", a |-> m, add |-> mux[m].added, fail |-> mux[m].failed, rm |-> mux[m].rm] :
+     readers  |-> {[kind |-> "m", a |-> m, p |-> mux[m].path, add |-> mux[m].added, fail |-> mux[m].failed, rm |-> mux[m].rm] :
                        m \in {x \in MuxIds : mux[x].added + mux[x].failed > 0}}
-                  \cup {[kind |-> "s", a |-> s, add |-> ses[s].add, fail |-> ses[s].fail, rm |-> ses[s].rm] :
+                  \cup {[kind |-> "s", a |-> s, p |-> ses[s].path, add |-> ses[s].add, fail |-> ses[s].fail, rm |-> ses[s].rm] :
                        s \in {x \in SesIds : ses[x].st # "none"}},
      nmux     |-> Cardinality(LiveMux),
      ninst    |-> Cardinality(LiveIns)]
@@ -131,6 +131,7 @@ Ids(o) == {x.id : x \in o.muxers}
 ShownPaths(o) == {x.p : x \in o.muxers}
 MuxOf(o, p) == CHOOSE x \in o.muxers : x.p = p
 Rest(o) == o.held = {}          \* nothing is held back: the server has come to rest
+RestP(o, p) == p \notin o.held  \* nothing of path p is held back
 
 \* S1
 OnePerPath(o) == \A x, y \in o.muxers : (x.p = y.p \/ x.id = y.id) => x = y
@@ -147,15 +148,15 @@ AlwaysRemuxOK(o) ==
 \* S3 (state part)
 OnDemandOK(o) ==
     /\ ~o.always => \A x \in o.muxers : ~x.auto
-    /\ Rest(o) => \A x \in o.muxers : ~x.auto => x.p \in o.ready
+    /\ \A x \in o.muxers : (~x.auto /\ RestP(o, x.p)) => x.p \in o.ready
 \* S4
 ReadersSafe(o) == \A r \in o.readers : r.add <= 1 /\ r.rm <= r.add /\ (r.fail > 0 => r.add = 0)
 ReadersAtRest(o) ==
-    Rest(o) => \A r \in o.readers :
+    \A r \in o.readers : RestP(o, r.p) =>
         IF r.kind = "m" THEN IF r.a \in Ids(o) THEN r.add = 1 /\ r.rm = 0 ELSE r.rm = r.add
         ELSE IF \E s \in o.sessions : s.s = r.a THEN r.add = 1 /\ r.rm = 0 ELSE r.rm = r.add
 SessionsServed(o) ==
-    Rest(o) => \A s \in o.sessions : s.p \in ShownPaths(o) /\ MuxOf(o, s.p).inst
+    \A s \in o.sessions : RestP(o, s.p) => s.p \in ShownPaths(o) /\ MuxOf(o, s.p).inst
 \* S6
 CloseOK(o) ==
     /\ o.closed => o.nmux = 0 /\ o.ninst = 0
@@ -197,11 +198,11 @@ DeathOK(o, e, n, lapse) ==
 \* S3: requests
 OpenOK(o, e, r, sid, n, lapse) ==
     (e.k = "open" /\ ~o.closing) =>
-        /\ e.p \notin o.ready => r = "notfound" /\ (Rest(n) => e.p \notin ShownPaths(n))
+        /\ e.p \notin o.ready => r = "notfound" /\ (RestP(n, e.p) => e.p \notin ShownPaths(n))
         /\ (r = "ok" /\ e.p \notin lapse) => /\ e.p \in ShownPaths(n)
                                               /\ [s |-> sid, p |-> e.p] \in n.sessions
         /\ r # "ok" => \A s \in n.sessions : s.s # sid
-        /\ (e.p \in o.ready /\ Rest(o)) =>
+        /\ (e.p \in o.ready /\ RestP(o, e.p)) =>
               /\ r \in {"ok", "error"}
               \* served unless the muxer has no instance (a muxer created on request may be closed for
               \* inactivity while a slow request is still under way: then the answer is left open)
@@ -214,7 +215,7 @@ OpenOK(o, e, r, sid, n, lapse) ==
                     => e.p \in ShownPaths(n) /\ MuxOf(n, e.p).id = MuxOf(o, e.p).id
 \* S5
 CrashOK(o, e, n) ==
-    (e.k = "crash" /\ Rest(o) /\ ~o.closing /\ e.p \in ShownPaths(o) /\ MuxOf(o, e.p).inst) =>
+    (e.k = "crash" /\ RestP(o, e.p) /\ ~o.closing /\ e.p \in ShownPaths(o) /\ MuxOf(o, e.p).inst) =>
         IF MuxOf(o, e.p).auto
         THEN /\ e.p \in ShownPaths(n) /\ MuxOf(n, e.p).id = MuxOf(o, e.p).id /\ ~MuxOf(n, e.p).inst
              /\ \A s \in n.sessions : s.p # e.p
